@@ -3,6 +3,7 @@ package props
 import (
 	"fmt"
 	"sort"
+	"strings"
 
 	"verif/internal/core"
 	"verif/internal/envx"
@@ -143,6 +144,56 @@ func c2Rank(peers []c2PeerSpec, cand []int) []int {
 	return cand
 }
 
+// c2Build creates the components of a typed-cycle case: the registration list, the permutable
+// names in ascending order, and getters for every peer's and every neutral holder's point.
+func c2Build(cs c02TypedCase) (comps []any, names []string, get, nget []func() any, nnames []string) {
+	n := len(cs.Peers)
+	user := map[string]bool{}
+	get = make([]func() any, n)
+	for i, sp := range cs.Peers {
+		b := scen.QBase{Id: fmt.Sprintf("x%d", i)}
+		name := "verif/props/" + sp.typ()
+		if sp.Named {
+			b.Name = b.Id
+			name = b.Id
+		}
+		user[name] = true
+		switch sp.typ() {
+		case "c2Peer":
+			x := &c2Peer{QBase: b}
+			comps, get[i] = append(comps, x), func() any { return x.Peer }
+		case "c2PeerOpt":
+			x := &c2PeerOpt{QBase: b}
+			comps, get[i] = append(comps, x), func() any { return x.Peer }
+		case "c2PeerPrim":
+			x := &c2PeerPrim{QBase: b}
+			comps, get[i] = append(comps, x), func() any { return x.Peer }
+		default:
+			x := &c2PeerPrimOpt{QBase: b}
+			comps, get[i] = append(comps, x), func() any { return x.Peer }
+		}
+	}
+	for bit, nm := range []string{"0-neutral", "zz-neutral"} {
+		if cs.Neutral>>bit&1 == 0 {
+			continue
+		}
+		user[nm] = true
+		nnames = append(nnames, nm)
+		if cs.NeutralOpt {
+			x := &c2NeutralOpt{Nm: nm}
+			comps, nget = append(comps, x), append(nget, func() any { return x.G })
+		} else {
+			x := &c2Neutral{Nm: nm}
+			comps, nget = append(comps, x), append(nget, func() any { return x.G })
+		}
+	}
+	for k := range user {
+		names = append(names, k)
+	}
+	sort.Strings(names)
+	return
+}
+
 func c02Typed(c *core.Ctx) {
 	first := true
 	Cases(c, c02TypedGen(c), func(c *core.Ctx, cs c02TypedCase) {
@@ -153,53 +204,11 @@ func c02Typed(c *core.Ctx) {
 		n := len(cs.Peers)
 		lastSig := ""
 		body := func(ch *envx.Chooser) {
-			var comps []any
+			comps, base, get, nget, nnames := c2Build(cs)
 			user := map[string]bool{}
-			get := make([]func() any, n)
-			for i, sp := range cs.Peers {
-				b := scen.QBase{Id: fmt.Sprintf("x%d", i)}
-				name := "verif/props/" + sp.typ()
-				if sp.Named {
-					b.Name = b.Id
-					name = b.Id
-				}
-				user[name] = true
-				switch sp.typ() {
-				case "c2Peer":
-					x := &c2Peer{QBase: b}
-					comps, get[i] = append(comps, x), func() any { return x.Peer }
-				case "c2PeerOpt":
-					x := &c2PeerOpt{QBase: b}
-					comps, get[i] = append(comps, x), func() any { return x.Peer }
-				case "c2PeerPrim":
-					x := &c2PeerPrim{QBase: b}
-					comps, get[i] = append(comps, x), func() any { return x.Peer }
-				default:
-					x := &c2PeerPrimOpt{QBase: b}
-					comps, get[i] = append(comps, x), func() any { return x.Peer }
-				}
+			for _, k := range base {
+				user[k] = true
 			}
-			var nget []func() any
-			var nnames []string
-			for bit, nm := range []string{"0-neutral", "zz-neutral"} {
-				if cs.Neutral>>bit&1 == 0 {
-					continue
-				}
-				user[nm] = true
-				nnames = append(nnames, nm)
-				if cs.NeutralOpt {
-					x := &c2NeutralOpt{Nm: nm}
-					comps, nget = append(comps, x), append(nget, func() any { return x.G })
-				} else {
-					x := &c2Neutral{Nm: nm}
-					comps, nget = append(comps, x), append(nget, func() any { return x.G })
-				}
-			}
-			var base []string
-			for k := range user {
-				base = append(base, k)
-			}
-			sort.Strings(base)
 			if cs.Desc {
 				sort.Sort(sort.Reverse(sort.StringSlice(base)))
 				for i, j := 0, len(comps)-1; i < j; i, j = i+1, j-1 {
@@ -315,6 +324,139 @@ func c02Typed(c *core.Ctx) {
 		}
 		if c.S.Programs%500 == 1 {
 			c.Sample(map[string]any{"case": cs, "executions": st.Execs})
+		}
+	})
+}
+
+// ---- C10: the typed-cycle programs under every permutation of (iteration, registration) order
+
+type c10TypedCase struct {
+	c02TypedCase
+	Perm []int `json:"perm,omitempty"`
+}
+
+// c2Sig runs one start of the case with the components enumerated and registered in the order
+// perm (indices into the ascending name list) and renders an order-independent signature:
+// success or failure, and every point that is not genuinely tied.
+func c2Sig(cs c02TypedCase, perm []int) (string, *scen.StartObs) {
+	comps, names, get, nget, _ := c2Build(cs)
+	// registration list in the same permutation (comps are in the order peers..., neutrals...;
+	// map them to their names first)
+	byName := map[string]any{}
+	ni := 0
+	for i, sp := range cs.Peers {
+		nm := "verif/props/" + sp.typ()
+		if sp.Named {
+			nm = fmt.Sprintf("x%d", i)
+		}
+		byName[nm] = comps[i]
+	}
+	for bit, nm := range []string{"0-neutral", "zz-neutral"} {
+		if cs.Neutral>>bit&1 == 1 {
+			byName[nm] = comps[len(cs.Peers)+ni]
+			ni++
+		}
+	}
+	user := map[string]bool{}
+	var base []string
+	var reg []any
+	for _, i := range perm {
+		base = append(base, names[i])
+		reg = append(reg, byName[names[i]])
+		user[names[i]] = true
+	}
+	o := scen.Start(scen.StartSpec{Ch: envx.Fixed("", nil), Comps: reg, User: user, Base: base})
+	switch {
+	case o.Panic != "" || o.Abort != "" || len(o.ChildPanics) > 0:
+		return "panic:" + o.Panic + o.Abort, o
+	case o.Err != nil:
+		return "fail", o
+	}
+	n := len(cs.Peers)
+	all := make([]int, n)
+	for i := range all {
+		all[i] = i
+	}
+	sig := "ok"
+	for i := range cs.Peers {
+		var others []int
+		for j := range cs.Peers {
+			if j != i {
+				others = append(others, j)
+			}
+		}
+		if len(others) > 0 && len(c2Rank(cs.Peers, others)) > 1 {
+			sig += "|tie"
+		} else {
+			sig += "|" + scen.IdOf(get[i]())
+		}
+	}
+	for _, g := range nget {
+		if len(c2Rank(cs.Peers, all)) > 1 {
+			sig += "|tie"
+		} else {
+			sig += "|" + scen.IdOf(g())
+		}
+	}
+	return sig, o
+}
+
+func c10Typed(c *core.Ctx) {
+	gen := func(yield func(c10TypedCase) bool) {
+		c02TypedGen(c)(func(cs c02TypedCase) bool {
+			if cs.Desc || cs.Bound != 0 {
+				return true // the orders are enumerated here
+			}
+			k := len(cs.Peers)
+			for b := 0; b < 2; b++ {
+				k += cs.Neutral >> b & 1
+			}
+			if k > 4 && !c.Thorough() {
+				return true
+			}
+			return yield(c10TypedCase{c02TypedCase: cs})
+		})
+	}
+	Cases(c, gen, func(c *core.Ctx, cs c10TypedCase) {
+		k := len(cs.Peers)
+		for b := 0; b < 2; b++ {
+			k += cs.Neutral >> b & 1
+		}
+		if c.ReplayCase != nil {
+			s0, _ := c2Sig(cs.c02TypedCase, scen.NthPerm(k, 0))
+			s1, _ := c2Sig(cs.c02TypedCase, cs.Perm)
+			c.S.Evaluations += 2
+			if s0 != s1 {
+				c.Report("C10/replay", "order-dependent", fmt.Sprintf("%q vs %q", s0, s1), cs)
+			}
+			return
+		}
+		c.S.Programs++
+		if len(cs.Peers) >= 2 {
+			c.S.Nontrivial++
+		}
+		first := ""
+		for p := 0; p < factorialInt(k); p++ {
+			perm := scen.NthPerm(k, p)
+			sig, o := c2Sig(cs.c02TypedCase, perm)
+			c.S.Evaluations++
+			c.S.States++
+			c.S.Transitions += int64(o.Trace.Calls)
+			c.Outcome("typed/" + strings.SplitN(sig, "|", 2)[0])
+			if p == 0 {
+				first = sig
+				continue
+			}
+			if sig != first {
+				cc := cs
+				cc.Perm = perm
+				c.Report("C10/typed/"+core.Hash(cs.Peers, cs.Neutral, cs.NeutralOpt), "order-dependent",
+					fmt.Sprintf("components implementing the interface of their own by-type point %+v, neutral holders mask %b (optional %v): outcome %q under the identity order, %q under order %v", cs.Peers, cs.Neutral, cs.NeutralOpt, first, sig, perm), cc)
+				break
+			}
+		}
+		if c.S.Programs%200 == 1 {
+			c.Sample(map[string]any{"case": cs, "orders_run": factorialInt(k), "signature": first})
 		}
 	})
 }
